@@ -27,7 +27,7 @@ func init() {
 		Real:           []string{"http1.Server.Serve (DoStart/DoFinish/eventStack)", "internal/stats.Controller", "traceinfo.HTTPStats", "recovery middleware", "route.Engine", "standard.Conn"},
 		Stub:           []string{"TCP (SimConn)", "peer (scripted actor)", "transporter (stub; for return-to-transport mode the harness re-enters Engine.Serve when data arrives, as netpoll does)", "clock (synctest)"},
 		Assumptions:    []string{"a connection that delivers no byte at all may produce one Start/Finish pair (the server starts tracing before the first read); this is not counted against the per-request rule"},
-		RequiredProbes: []string{"out-ok", "out-panic", "out-malformed", "out-toolarge", "out-fin-header", "out-fin-body", "out-rst-body", "out-write-error", "out-hijack", "out-close", "end-fin-idle", "end-rst-idle", "end-idle-timeout", "mode-return-to-transport", "level-base", "level-detailed", "level-disabled"},
+		RequiredProbes: []string{"out-ok", "out-panic", "out-malformed", "out-toolarge", "out-fin-header", "out-fin-body", "out-rst-body", "out-write-error", "out-hijack", "out-close", "end-fin-idle", "end-rst-idle", "end-idle-timeout", "end-stray-fin", "mode-return-to-transport", "level-base", "level-detailed", "level-disabled"},
 	}
 }
 
@@ -121,7 +121,7 @@ func RunC19(ep *core.Episode) {
 	}
 	endKind := "fin-idle"
 	if ender < 0 {
-		endKind = []string{"fin-idle", "rst-idle", "idle-timeout"}[tp.Choose("end", 3)]
+		endKind = []string{"fin-idle", "rst-idle", "idle-timeout", "stray-fin"}[tp.Choose("end", 4)]
 		if returnMode && endKind == "idle-timeout" {
 			endKind = "fin-idle"
 		}
@@ -243,6 +243,16 @@ func RunC19(ep *core.Episode) {
 		cl.Sends = append(cl.Sends, Send{Kind: "rst", AfterResps: n, Delay: delay, Label: "rst-idle"})
 	case endKind == "idle-timeout":
 		ep.Fault("idle-timeout")
+	case endKind == "stray-fin":
+		// 1..3 stray bytes (e.g. a trailing CRLF from a sloppy client) and then the peer leaves:
+		// fewer than the 4 bytes the server waits for, so no request begins
+		stray := []string{"\r\n", "\r", "\n", "GE", "\r\n\r"}[tp.Choose("stray", 5)]
+		after := n
+		if tp.Choose("straypipelined", 2) == 1 {
+			after = 0 // right behind the last request, typically in the same segment
+		}
+		cl.Sends = append(cl.Sends, Send{Data: []byte(stray), AfterResps: after, Label: "stray"}, Send{Kind: "fin", AfterResps: n, Delay: delay, Label: "fin-after-stray"})
+		ep.Fault("stray-bytes")
 	}
 	ep.S.Horizon = 30 * time.Second
 	res := ep.S.Run(func() bool { return conn.Task.Done })
@@ -309,11 +319,17 @@ func RunC19(ep *core.Episode) {
 			}
 		}
 	}
-	if pairs < lower || pairs > n {
+	upper := n
+	if returnMode && endKind == "stray-fin" {
+		// return-to-transport mode: the transport re-enters the server for any
+		// readable byte, so the stray bytes legitimately begin a (failing) request
+		upper = n + 1
+	}
+	if pairs < lower || pairs > upper {
 		ep.Fail("C19.per-request", "%d Start/Finish pairs, want between %d and %d (%d handler invocations, outcomes %v, end %s): %s", pairs, lower, n, handled, outcomes, endKind, desc())
 		return
 	}
-	for i := 0; i < pairs; i++ {
+	for i := 0; i < pairs && i < len(outcomes); i++ {
 		st, fin := calls[2*i], calls[2*i+1]
 		oc := outcomes[i]
 		// the finish carries this request's data
